@@ -50,6 +50,10 @@ def sx_fops(ops):
 MASKED_DTYPES = ["Int8", "Int16", "Int32", "Int64", "UInt8", "UInt16", "UInt32", "UInt64", "boolean", "string"]
 
 
+MASKED_FLOATS = ["Float32", "Float64"]
+CAT_LABELS = ["x", "yy", "zzz"]
+
+
 def to_df(frame):
     """[[label, dtype, values], ...] -> DataFrame (labels may repeat / be non-text)."""
     import numpy as np
@@ -58,7 +62,9 @@ def to_df(frame):
     for i, (label, dt, vals) in enumerate(frame):
         if dt == "object":
             cols[i] = pd.Series(list(vals), dtype=object)
-        elif dt in MASKED_DTYPES:
+        elif dt == "category":
+            cols[i] = pd.Series(pd.Categorical(list(vals), categories=CAT_LABELS))
+        elif dt in MASKED_DTYPES or dt in MASKED_FLOATS:
             # pandas extension dtypes that can hold a missing value (None in the data = <NA>)
             cols[i] = pd.Series(pd.array(list(vals), dtype=dt))
         elif dt == "period":
